@@ -132,10 +132,20 @@ def attribute_all(chk, clause, items):
         obs = replay(chk, [dict(id=i, dim=3 if cul["op"] in OPS3 else 2, e=cul, w=w, slow=1) for i, (c, cul, w) in enumerate(slow)])
         badslow = {canon(ev["e"]) for ev, _ in judge(chk, clause, obs)}
         accepted_slow = {canon(cul) for c, cul, w in slow if canon(cul) not in badslow}
+    # a culprit that is accepted without the pruning is the recorded limitation only if, wherever the pruned value
+    # differs from EvaluateSlow, the operand holding the minimum undercuts the distance to its own bounding box
+    # (probe, slow = 2); if a legitimate operand was pruned anywhere it is a different defect and gets another name
+    legit = {}
+    probe = [(c, cul, w) for c, cul, w in slow if canon(cul) in accepted_slow]
+    if probe:
+        obs = replay(chk, [dict(id=i, dim=3 if cul["op"] in OPS3 else 2, e=cul, w=w, slow=2) for i, (c, cul, w) in enumerate(probe)])
+        for (c, cul, w), o in zip(probe, obs):
+            legit[canon(cul)] = (o.get("legit", 0), o.get("under", 0))
     for c, (cul, w) in res.items():
         name = CTOR.get(cul["op"], cul["op"])
         if canon(cul) in accepted_slow:
-            name = "Union2D-box-pruning"
+            lg, un = legit.get(canon(cul), (0, 0))
+            name = "Union2D-box-pruning" if lg == 0 and un > 0 else "Union2D-prunes-a-legitimate-operand"
         out[c] = (cul, name)
     return out
 
